@@ -26,6 +26,8 @@ class StateVectorEvolution(MatrixData, BasisManaged):
         self._data = numpy.zeros((timeaxis.length, psii.data.shape[0]),
                                  dtype=numpy.complex128)
         self.dim = psii.data.shape[0]
+        # frame of the data (set by the propagator for RWA calculations)
+        self.is_in_rwa = False
         self.data[0,:] = psii.data
 
 
